@@ -267,6 +267,27 @@ def authority_grammar(rec):
                 if tuple(got) != want:
                     rec.violation('parse_host-mismatch', {'host': full, 'default': default, 'got': got, 'want': want})
                 rec.case(('auth', full, default))
+    # long reg-names (RFC 3986 sets no limit): the colon at and around positions where small-int caching, 8-bit
+    # counters or buffer sizes could matter
+    for pos in (63, 64, 127, 128, 254, 255, 256, 257, 258, 300, 511, 512, 1023, 1024, 4096, 65536):
+        labels = []
+        while sum(len(x) + 1 for x in labels) < pos:
+            labels.append('a' * min(60, pos - sum(len(x) + 1 for x in labels)))
+        host = '.'.join(labels)[:pos].rstrip('.') or 'a'
+        host = host + 'b' * (pos - len(host))
+        for port, default in ((8080, None), (None, 80), (0, 443)):
+            full = host if port is None else '%s:%d' % (host, port)
+            want = (host, default if port is None else port)
+            try:
+                got = uri.parse_host(full, default)
+            except Exception as ex:  # noqa
+                rec.violation('parse_host-raised', {'host': full[:80] + '...', 'len': len(full), 'default': default, 'exc': repr(ex)})
+                continue
+            rec.count('mon.parse_host')
+            rec.count('mon.parse_host_long')
+            if tuple(got) != want:
+                rec.violation('parse_host-mismatch', {'host': full[:40] + '...' + full[-12:], 'len': len(full), 'default': default,
+                                                      'got': [str(got[0])[:40] + '...' + str(got[0])[-12:], got[1]], 'want_port': want[1]})
     # bare (unbracketed) IPv6: documented to be returned whole with the default port
     for text in ('::1', '1:2:3:4:5:6:7:8', 'fe80::1', '::'):
         for default in (None, 443):
@@ -425,6 +446,16 @@ def run(rec):
             check_string(rec, t)
             rec.case(('long', unit, n))
             rec.count('long_inputs')
+    # token counts around 2**16 (one token per '%'), with and without text before the first '%'
+    for ntok in (65534, 65535, 65536, 70001):
+        for prefix, unit in (('q=', '%41'), ('', '%41'), ('é', '%c3%A9'), ('x', '%'), ('ab', '%4'), ('/p?', '%zz')):
+            li += 1
+            if li % rec.nshards != rec.shard or (rec.tier == 'quick' and ntok in (65534, 65536)):
+                continue
+            t = prefix + unit * ntok + 'z'
+            check_string(rec, t)
+            rec.case(('tokens', prefix, unit, ntok))
+            rec.count('long_inputs')
     if rec.shard == 0 and rec.mode == 'pure':
         authority_grammar(rec)
     rec.exhaustive = True
@@ -465,6 +496,7 @@ def run(rec):
     if rec.mode == 'pure':
         rec.floor('mon.parse_host', 10)
         rec.floor('mon.parse_host_grammar', 300)
+        rec.floor('mon.parse_host_long', 40)
 
 
 def replay(rec, w):
